@@ -45,6 +45,12 @@ fn validate_integer(v: Value) -> (r: Result<isize, Error>)
 pub uninterp spec fn display(v: Value) -> Gc<ObjString>;
 // the text a sequence of strings concatenates to, interned (C11)
 pub uninterp spec fn concat_all(parts: Seq<Gc<ObjString>>) -> Gc<ObjString>;
+// R13: the text of some other `format!` (unknown)
+#[verifier::external_body]
+pub struct VString { _p: u8 }
+impl VString { #[verifier::external_body] fn as_str(&self) -> &str { unimplemented!() } }
+#[verifier::external_body]
+fn verif_format() -> VString { unimplemented!() }
 // `String::new()` / `push_str(x.as_str())`: the buffer as the sequence of parts appended so far
 pub struct StrBuf { pub ghost parts: Seq<Gc<ObjString>> }
 impl StrBuf {
@@ -141,6 +147,9 @@ impl Vm {
     fn build_range(&mut self, begin: isize, end: isize) -> (r: Gc<ObjRange>) ensures r.obj().begin == begin && r.obj().end == end, final(self).stack == old(self).stack, final(self).raised == old(self).raised { unimplemented!() }
     #[verifier::external_body]
     fn display_string(&mut self, value: Value) -> (r: Gc<ObjString>) ensures r == display(value), final(self).stack == old(self).stack, final(self).raised == old(self).raised { unimplemented!() }
+    // any other text turned into a string object (R13 drops what a `format!` other than Display-of-the-value prints)
+    #[verifier::external_body]
+    fn new_gc_obj_string(&mut self, data: &str) -> (r: Gc<ObjString>) ensures final(self).stack == old(self).stack, final(self).raised == old(self).raised { unimplemented!() }
     #[verifier::external_body]
     fn intern_parts(&mut self, buf: &StrBuf) -> (r: Gc<ObjString>) ensures r == concat_all(buf.parts), final(self).stack == old(self).stack, final(self).raised == old(self).raised { unimplemented!() }
 
@@ -153,10 +162,11 @@ impl Vm {
     //@end
 
     // one part of an interpolated string: a string stays as it is, anything else is replaced by its printed form
-    //@fn file=yarel/src/vm.rs path=Vm::format_string_impl props=C05
+    //@fn file=yarel/src/vm.rs path=Vm::format_string_impl props=C05,C19
     //@  subst "self.new_gc_obj_string(format!(\"{}\", value).as_str())" => "self.display_string(value)"
+    //@  rewrite R13
     //@  requires old(self).stack.len() >= 1
-    //@  ensures @an_interpolated_part_becomes_its_printed_form_in_place final(self).stack == old(self).stack.drop_last().push(if old(self).stack.last() is ObjString { old(self).stack.last() } else { Value::ObjString(display(old(self).stack.last())) }) && final(self).raised == old(self).raised
+    //@  ensures @an_interpolated_part_becomes_what_print_prints_for_it_in_place final(self).stack == old(self).stack.drop_last().push(if old(self).stack.last() is ObjString { old(self).stack.last() } else { Value::ObjString(display(old(self).stack.last())) }) && final(self).raised == old(self).raised
     //@end
 
     // an interpolated string: its parts, in source order (deepest operand first), concatenated into one string
